@@ -96,11 +96,13 @@ type CPUI interface {
 	SetOnPC(m map[uint32]func())
 	// Trace writes the trace line of the instruction at the current PC to w.
 	Trace(w io.Writer)
+	TriggerIRQ()
 }
 
 type cpuA struct{ c *cpu65c816.CPU }
 
 func (a cpuA) Kind() string      { return "cpu65c816" }
+func (a cpuA) TriggerIRQ()       { a.c.TriggerIRQ() }
 func (a cpuA) Step() (int, bool) { return a.c.Step() }
 func (a cpuA) Reset()            { a.c.Reset() }
 func (a cpuA) SetFlagsP(p byte)  { a.c.SetFlags(p) }
@@ -132,6 +134,7 @@ func (a cpuA) SetRegs(r Regs) {
 type cpuB struct{ c *cpualt.CPU }
 
 func (a cpuB) Kind() string      { return "cpualt" }
+func (a cpuB) TriggerIRQ()       { a.c.TriggerIRQ() }
 func (a cpuB) Step() (int, bool) { return a.c.Step() }
 func (a cpuB) Reset()            { a.c.Reset() }
 func (a cpuB) SetFlagsP(p byte)  { a.c.SetFlags(p) }
